@@ -378,6 +378,8 @@ class GeckoAsyncSpa(Observable):
         if self._protocol is not None:
             self._protocol.disconnect()
             self._protocol = None
+        if self._transport is not None:
+            self._transport.close()
         self._transport = None
         self.unwatch_all()
 
